@@ -509,12 +509,15 @@ def load_known():
 
 
 def write_evidence(pid, tier, seed, level, coverage, assumptions, wall, nviol):
-    os.makedirs(os.path.join(VERIF, 'evidence'), exist_ok=True)
+    evdir = os.path.join(VERIF, 'evidence')
+    if os.environ.get('VERIF_NO_EVIDENCE'):
+        evdir = os.path.join(CACHE, 'evidence-scratch')   # runs against seeded changes never touch committed evidence
+    os.makedirs(evdir, exist_ok=True)
     ev = dict(property_id=pid, tier=tier, seed=seed, level=level, coverage=coverage,
               assumptions=assumptions, wall_s=round(wall, 2), violations=nviol)
-    tmp = os.path.join(VERIF, 'evidence', pid + '.json.tmp')
+    tmp = os.path.join(evdir, pid + '.json.tmp')
     json.dump(ev, open(tmp, 'w'), indent=1, sort_keys=True)
-    os.rename(tmp, os.path.join(VERIF, 'evidence', pid + '.json'))
+    os.rename(tmp, os.path.join(evdir, pid + '.json'))
 
 
 def finish(pid, tier, seed, spec, agg, t0, extra_cov=None):
